@@ -4,7 +4,7 @@ construct does not occur"); each keeps a positive example in the
 self-validation variants."""
 import ast
 
-from .core import (AnalysisError, dotted, norm, walk_local, const_int,
+from .core import (ftext, AnalysisError, dotted, norm, walk_local, const_int,
                    stmts_of, calls_in, call_name, kwarg, enclosing_stmt_map,
                    block_always_raises, PKG)
 from .dataflow import local_defs, names_in, closure_names, holds
@@ -109,7 +109,7 @@ def file_accessor_hazards(repo, col):
                         "of DataAccessError" % nm, node=c)
     # 5. gzip streams must be read to their end-of-stream marker
     for fn in m.functions.values():
-        t = norm(fn.node)
+        t = ftext(fn)
         if "decompressobj(" in t:
             n += 1
             ok = ".eof" in t
@@ -389,7 +389,7 @@ def loop_error_discipline(repo, col):
             if not subs:
                 continue
             repo.consulted.add(m.name)
-            t = norm(f.node)
+            t = ftext(f)
             ok = ".result(" in t or ".get(" in t and "apply_async" in t
             col.add(rule + ".executor", f, norm(subs[0])[:60], ok, "" if ok
                     else "tasks are submitted to an executor but their "
@@ -451,7 +451,7 @@ def declared_block_size(repo, col):
                 "info: the file is laid out for a block size a specification "
                 "reader does not use" % a, node=calls[0])
     ini = repo.func("chunk_encoding", "CompressedSegmentationEncoder.__init__")
-    ok = "self.block_size = block_size" in norm(ini.node)
+    ok = "self.block_size = block_size" in ftext(ini)
     col.add(rule, ini, "self.block_size = declared block size", ok,
             "" if ok else "declared block size is altered when stored",
             undecided=not ok)
@@ -530,7 +530,7 @@ def cosines_vectorised(repo, col):
                     "divided by voxel size k, but it is column k (input axis "
                     "k) that carries voxel size k" % r, node=st)
     tr = repo.func("transform", "nifti_to_neuroglancer_transform")
-    t = norm(tr.node)
+    t = ftext(tr)
     param = tr.params[0]
     aliasing = [d for d in local_defs(tr.node).get("ret", [])
                 if d.value is not None and isinstance(d.value, ast.Call) and
@@ -604,27 +604,51 @@ def mesh_unit_unconditional(repo, col):
 
 
 def stats_accumulation_nesting(repo, col):
+    from .rules_tile import stats_model
+    from .core import resolve_local_call
     rule = "E-TILE.stats"
-    fn = repo.func("scripts.scale_stats", "show_scales_info")
+    top, fn, comp = stats_model(repo)
     inner = None
-    for st in stmts_of(fn.node):
-        if isinstance(st, ast.For) and "chunk_sizes" in norm(st.iter):
-            inner = st
+    if fn is not None:
+        for st in stmts_of(fn.node):
+            if isinstance(st, ast.For) and "chunk_sizes" in norm(st.iter):
+                inner = st
     if inner is None:
-        col.add(rule, fn, "per-chunk-size loop", True, "loop over chunk_sizes "
+        col.add(rule, top, "per-chunk-size loop", True, "loop over chunk_sizes "
                 "not found", undecided=True)
         return
-    inside = {norm(s.target) for s in ast.walk(inner)
-              if isinstance(s, ast.AugAssign)}
-    allaug = {norm(s.target) for s in stmts_of(fn.node)
-              if isinstance(s, ast.AugAssign)}
-    want = {"total_size", "total_chunks"}
+    allaug = {s.target.id for s in stmts_of(top.node)
+              if isinstance(s, ast.AugAssign) and isinstance(s.target, ast.Name)
+              and s.target.id.startswith("total")}
+    if fn is top:
+        inside = {norm(s.target) for s in ast.walk(inner)
+                  if isinstance(s, ast.AugAssign)}
+    else:
+        # figures are produced by a helper: once per chunk size iff the helper
+        # yields inside its chunk-size loop and the caller accumulates inside
+        # the loop over the helper's results
+        yields_inside = any(isinstance(n, (ast.Yield, ast.YieldFrom))
+                            for n in ast.walk(inner))
+        yields = [n for n in walk_local(fn.node)
+                  if isinstance(n, (ast.Yield, ast.YieldFrom))]
+        if not yields:
+            col.add(rule, top, "per-chunk-size loop", True, "figures come "
+                    "from a helper that is not a generator", undecided=True)
+            return
+        inside = set()
+        for st in stmts_of(top.node):
+            if isinstance(st, ast.For) and isinstance(st.iter, ast.Call) and \
+                    resolve_local_call(top, st.iter) is fn and yields_inside:
+                inside |= {norm(s.target) for s in ast.walk(st)
+                           if isinstance(s, ast.AugAssign)}
+    want = {t for t in allaug if t in ("total_size", "total_chunks")} or \
+        {"total_size", "total_chunks"}
     ok = want <= inside
-    col.add(rule, fn, "totals accumulate once per chunk size (as the chunks "
+    col.add(rule, top, "totals accumulate once per chunk size (as the chunks "
             "are written)", ok, "" if ok else "%s accumulated outside the "
             "loop over chunk sizes: totals no longer match the per-line "
             "figures for scales with several chunk sizes"
-            % sorted((want & allaug) - inside))
+            % sorted((want & allaug) - inside or want - inside))
 
 
 def axis_arg_family(repo, col, shorts):
@@ -664,11 +688,13 @@ def shard_protocol_guards(repo, col):
     rule = "E-BOUND.shard-protocol"
     # 1. a chunk below the next expected id is refused; only the expected id
     #    is appended
-    cba = repo.func("sharded_file_accessor", "MiniShard.can_be_appended")
+    cba = repo.func("sharded_file_accessor", "MiniShard.can_be_appended", inline=True)
+    from .dataflow import single_defs, expand
+    ctab = single_defs(cba.node)
     late = False
     for g, atoms in raise_guards(cba.node):
         for a in atoms:
-            l, r = norm(a.left), norm(a.right)
+            l, r = norm(expand(a.left, ctab)), norm(expand(a.right, ctab))
             if {l, r} == {"self.next_cmc", cba.params[-1]}:
                 # fall-through must allow next == cmc and forbid next > cmc
                 if (l == "self.next_cmc" and a.op == "<=") or \
@@ -678,7 +704,7 @@ def shard_protocol_guards(repo, col):
             "" if late else "a chunk whose id is below the next expected id "
             "of its minishard is not refused at store time (ids in a "
             "minishard index must be strictly increasing)")
-    rets = [norm(s.value) for s in stmts_of(cba.node)
+    rets = [norm(expand(s.value, ctab)) for s in stmts_of(cba.node)
             if isinstance(s, ast.Return) and s.value is not None]
     ok = rets in (["self.next_cmc == %s" % cba.params[-1]],
                   ["%s == self.next_cmc" % cba.params[-1]])
@@ -697,6 +723,26 @@ def shard_protocol_guards(repo, col):
         for a in atoms:
             if a.op == "==" and cmc in (norm(a.left), norm(a.right)):
                 eq_guards.append(cfg.node_of(g))
+    # the guard may sit in a local helper that receives the requested id
+    from .core import resolve_local_call
+    for c in calls_in(rd.node):
+        h = resolve_local_call(rd, c)
+        if h is None or h is rd:
+            continue
+        hp = [p for p in h.params if p not in ("self", "cls")]
+        for i, a_ in enumerate(c.args):
+            if isinstance(a_, ast.Name) and a_.id == cmc and i < len(hp):
+                hcfg = h.cfg()
+                hg = []
+                for g, atoms in raise_guards(h.node):
+                    if any(a.op == "==" and hp[i] in (norm(a.left),
+                                                      norm(a.right))
+                           for a in atoms):
+                        hg.append(hcfg.node_of(g))
+                if hg and hcfg.every_path_passes(hcfg.entry, hcfg.exit, hg):
+                    n_ = cfg.node_of(owner.get(id(c)))
+                    if n_ is not None:
+                        eq_guards.append(n_)
     ok = bool(reads) and bool(eq_guards) and all(
         cfg.every_path_passes(cfg.entry, cfg.node_of(owner.get(id(c))),
                               eq_guards) for c in reads)
@@ -722,7 +768,7 @@ def shard_protocol_guards(repo, col):
             "of three words is not refused")
     # 3. the shard index written at offset 0 has exactly the placeholder's
     #    length: too many entries raise, too few are padded with a strict <
-    cl = repo.func("sharded_file_accessor", "Shard.close")
+    cl = repo.func("sharded_file_accessor", "Shard.close", inline=True)
     pads = [s for s in stmts_of(cl.node) if isinstance(s, ast.While)
             and "sh_idx_len" in norm(s.test)]
     if not pads:
@@ -730,10 +776,11 @@ def shard_protocol_guards(repo, col):
                 "padding loop not in the recognised form", undecided=True)
     else:
         t = pads[0].test
+        ptab = single_defs(cl.node)
         ok = isinstance(t, ast.Compare) and isinstance(t.ops[0], ast.Lt) and \
             norm(t.left) == "sh_idx_len" and \
-            "minishard_bits" in norm(t.comparators[0]) and \
-            "16" in norm(t.comparators[0])
+            "minishard_bits" in norm(expand(t.comparators[0], ptab)) and \
+            "16" in norm(expand(t.comparators[0], ptab))
         col.add(rule, cl, "while %s" % norm(t), ok, "" if ok else
                 "padding continues while `%s`: one entry too many makes the "
                 "index longer than its placeholder and the first bytes of "
@@ -745,11 +792,16 @@ def shard_protocol_guards(repo, col):
                 "" if upd else "padding loop does not re-measure the index",
                 undecided=not upd)
     too_many = False
+    ltab = single_defs(cl.node)
     for g, atoms in raise_guards(cl.node):
         for a in atoms:
             if norm(a.left) == "sh_idx_len" and a.op in ("<", "<=") and \
-                    "minishard_bits" in norm(a.right):
+                    "minishard_bits" in norm(expand(a.right, ltab)):
                 too_many = True
+    from .core import helper_closure
+    opaque = [h for h in helper_closure(getattr(cl, "inlined_from", cl))
+              if h.key != cl.key and "sh_idx" in ftext(h)]
     col.add(rule, cl, "more entries than minishards raise", too_many,
             "" if too_many else "an index longer than 2**minishard_bits "
-            "entries is written over the start of the chunk data")
+            "entries is written over the start of the chunk data",
+            undecided=not too_many and bool(opaque))
